@@ -114,7 +114,7 @@ class C02(IRProp):
         # insertion at the same offset is put in front of it
         if name.startswith(".Ld") and want[0] == "pos" and got[0] == "pos" and got[1] > want[1]:
             for n, (i, t, off, ln, patch, _) in enumerate(case.mods):
-                if isinstance(patch, str) and patch.endswith(".Ld:") and any(j == i and o2 == off and t2 != "del" and n2 > n for n2, (j, t2, o2, l2, p2, _) in enumerate(case.mods)):
+                if isinstance(patch, str) and patch.endswith(".Ld:") and any(j == i and o2 == off + ln and t2 != "del" and n2 != n for n2, (j, t2, o2, l2, p2, _) in enumerate(case.mods)):
                     return "C02-label-ending-a-data-patch-follows-later-insertions"
         # known finding: end label of block k found on a proxy while block k+1 was deleted with retarget_to_proxy
         if name.startswith("E") and got == ("proxy",) and want[0] == "pos":
